@@ -5,6 +5,7 @@ import (
 	"encoding/json"
 	"fmt"
 	"os"
+	"runtime/pprof"
 	"sort"
 
 	"verif/checks"
@@ -52,7 +53,15 @@ func main() {
 			os.Exit(2)
 		}
 		r := core.NewRun(id, tier)
-		c.Run(r)
+		if pf := os.Getenv("VERIF_CPUPROFILE"); pf != "" {
+			f, _ := os.Create(pf)
+			pprof.StartCPUProfile(f)
+			c.Run(r)
+			pprof.StopCPUProfile()
+			f.Close()
+		} else {
+			c.Run(r)
+		}
 		os.Exit(r.Finish())
 	case "replay":
 		if len(os.Args) < 3 {
